@@ -320,7 +320,11 @@ func checkC15(c *ev.Ctx) {
 		"{" + full + `,"ifVer":7}`, "{" + full + `,"ifVer":"7"}`, "{" + full + `,"hardKey":"true"}`, "{" + full + `,"exts":[]}`, "{" + full + `,"exts":{"a":{"b":[1,2]}}}`,
 		"{" + full + `,"touchlessSudo":null}`, "{" + full + `,"touchlessSudo":{"time":1.5}}`, "{" + full + `,"USERNAME":"other"}`, "{" + full + `,"username":"second"}`,
 		"{" + full + "} req=u@h", "req=u@h {" + full + "}", "{" + full + "}{}", " {" + full + "} ", "{" + full, `{"username":"u@h","hostname":"h req=x@y","sshClientVersion":"8.1 "}`,
-		"\xff\xfe", "", " ", "req=\xff@h"}
+		"\xff\xfe", "", " ", "req=\xff@h",
+		// required fields present only inside a nested value; whitespace and BOM around an object
+		`{"x":{` + full + `}}`, `{"username":"u","hostname":"h","x":{"sshClientVersion":"8.1"}}`, `{"username":"u","hostname":"h","x":[{"sshClientVersion":"8.1"}]}`,
+		`{"username":"u","hostname":"h","x":"{\"sshClientVersion\":\"8.1\"}"}`, `{"touchlessSudo":{` + full + `}}`, "[{" + full + "}]",
+		"\n{" + full + "}", "\t{" + full + "}\r\n", "\r\n {" + full + "}", "\ufeff{" + full + "}", "\u00a0{" + full + "}", "{\n" + full + "\n}"}
 	for _, t := range cat {
 		c15Text(c, t, "catalogue")
 	}
